@@ -4,6 +4,7 @@ mod astcheck;
 mod astsexp;
 mod devtools;
 mod exec;
+mod luaucheck;
 mod progen;
 mod model;
 mod props;
